@@ -1,6 +1,10 @@
 package props
 
-import "fmt"
+import (
+	"fmt"
+	"os"
+	"strconv"
+)
 
 // recorder is a kit.Fataler that records instead of stopping the test; used
 // by the dedicated sub-runs of listed known findings.  kit.Fail writes its
@@ -31,4 +35,14 @@ func (r *recorder) try(f func()) (failed bool) {
 	}()
 	f()
 	return r.failed
+}
+
+// scalePct lets a developer shrink a campaign (VERIF_DEV_PCT, default 100).
+func scalePct() int {
+	if v := os.Getenv("VERIF_DEV_PCT"); v != "" {
+		if n, err := strconv.Atoi(v); err == nil && n > 0 {
+			return n
+		}
+	}
+	return 100
 }
